@@ -64,6 +64,11 @@ def gen_cloud(rng, kind=None):
         pts = rng.uniform(0, 130, size=(n, 2))
         w = rng.uniform(0, 2.0, n)
         true = None
+    if kind != 'small_exact' and rng.random() < 0.35:
+        # quantised elevations: some exactly at the threshold min_weight (they are NOT weak), some just below
+        j = rng.permutation(len(w))[:max(1, len(w) // 4)]
+        w = w.copy()
+        w[j] = rng.choice([0.1, 0.1, 0.05], size=len(j))
     params = dict(tolerance=float(rng.choice([1.0, 3.0])), min_weight=0.1, min_match=int(rng.choice([3, 3, 4])), min_angle=float(rng.choice([np.pi / 10, np.pi / 5])),
                   min_points=int(rng.choice([10, 5])), min_delta=float(rng.choice([0.0, 5.0, 15.0])), max_delta=float(rng.choice([np.inf, 60.0, 40.0])))
     if kind == 'limit_edge':
